@@ -34,6 +34,11 @@ type Ctx struct {
 	Prop string
 	Tier string
 	Var  string // variant of the scenario (sub-world), chosen per run
+	// RunIndex / BaseSeed: index of this run and VERIF_SEED (generation mode). Enumerating
+	// checks derive their plan from them and record it on the tape (Tape.Preset/Reseed), so
+	// replays depend on the tape only.
+	RunIndex int
+	BaseSeed uint64
 
 	Violations []Violation
 	Faults     map[string]int64 // fault kinds that actually fired
@@ -79,6 +84,8 @@ type PropDef struct {
 	Post func(c *Ctx)
 	// IgnorePanics: task panics are not violations by themselves.
 	IgnorePanics bool
+	// ShrinkExecs / ShrinkSeconds bound the minimisation of one violation (0 = 300 executions / 90 s).
+	ShrinkExecs, ShrinkSeconds int
 	// Rule describes generation and what makes a case non-trivial (for evidence).
 	Rule string
 	// Real / Stub components (for evidence).
@@ -105,6 +112,12 @@ type Outcome struct {
 
 var theT *testing.T
 
+// set by the worker / replay driver before execute
+var (
+	curRunIndex int
+	curBaseSeed uint64
+)
+
 // execute runs one scenario under one tape.
 func execute(p *PropDef, tape *simrt.Tape, tier, variant string) *Outcome {
 	simos.Reset()
@@ -113,7 +126,7 @@ func execute(p *PropDef, tape *simrt.Tape, tier, variant string) *Outcome {
 		simrt.SetMapMode(i, simrt.MapSorted)
 	}
 	resetGlobals()
-	c := &Ctx{T: tape, Prop: p.ID, Tier: tier, Var: variant, Faults: map[string]int64{}, Probes: map[string]int64{},
+	c := &Ctx{T: tape, Prop: p.ID, Tier: tier, Var: variant, RunIndex: curRunIndex, BaseSeed: curBaseSeed, Faults: map[string]int64{}, Probes: map[string]int64{},
 		States: map[uint64]struct{}{}, Keep: map[string]interface{}{}}
 	cfg := simrt.Config{Policy: simrt.PolicyCoarse}
 	if p.SimConfig != nil {
@@ -461,6 +474,12 @@ func workerMain(t *testing.T) {
 	}
 	os.MkdirAll(replayDir, 0755)
 
+	knownSigs := map[string]bool{}
+	for _, k := range strings.Split(os.Getenv("VERIF_KNOWN_SIGS"), "\n") {
+		if k != "" {
+			knownSigs[k] = true
+		}
+	}
 	res := &WorkerResult{Property: propID, Tier: tier, Seed: seed, Worker: wi, Faults: map[string]int64{}, Probes: map[string]int64{}, Variants: map[string]int{},
 		Rule: p.Rule, Real: p.Real, Stub: p.Stub, Assumptions: p.Assumptions}
 	t0 := time.Now()
@@ -480,6 +499,7 @@ func workerMain(t *testing.T) {
 			}
 		}
 		runSeed := simrt.Mix(seed, propID, uint64(idx))
+		curRunIndex, curBaseSeed = idx, seed
 		variant := variantFor(p, idx)
 		what = fmt.Sprintf("prop=%s idx=%d seed=%d variant=%s", propID, idx, runSeed, variant)
 		stop := watchdog(300*time.Second, &what)
@@ -527,7 +547,17 @@ func workerMain(t *testing.T) {
 			// new signature: minimise and write a replay file
 			streams := tape.Streams()
 			stop := watchdog(900*time.Second, &what)
-			small, execs := shrink(p, tier, variant, runSeed, streams, v.Sig, 300, 90*time.Second)
+			maxExec, maxDur := 300, 90*time.Second
+			if p.ShrinkExecs > 0 {
+				maxExec = p.ShrinkExecs
+			}
+			if p.ShrinkSeconds > 0 {
+				maxDur = time.Duration(p.ShrinkSeconds) * time.Second
+			}
+			if knownSigs[v.Sig] {
+				maxExec = 0 // a committed finding with its own minimised replay: do not minimise again
+			}
+			small, execs := shrink(p, tier, variant, runSeed, streams, v.Sig, maxExec, maxDur)
 			close(stop)
 			// final confirmation of the minimised tape in this process
 			fin := execute(p, simrt.ReplayTape(runSeed, small), tier, variant)
@@ -568,6 +598,15 @@ func workerMain(t *testing.T) {
 		res.Violations = append(res.Violations, *seenSig[s])
 	}
 	res.WallS = time.Since(t0).Seconds()
+	if os.Getenv("VERIF_DUMP_GOROUTINES") != "" {
+		buf := make([]byte, 64<<20)
+		n := runtime.Stack(buf, true)
+		os.WriteFile(os.Getenv("VERIF_DUMP_GOROUTINES"), buf[:n], 0644)
+		var ms runtime.MemStats
+		runtime.GC()
+		runtime.ReadMemStats(&ms)
+		fmt.Fprintf(os.Stderr, "goroutines=%d heap_after_gc=%dMB\n", runtime.NumGoroutine(), ms.HeapAlloc>>20)
+	}
 	b, _ := json.Marshal(res)
 	if outPath != "" {
 		if err := os.WriteFile(outPath, b, 0644); err != nil {
@@ -621,6 +660,7 @@ func replayMain(t *testing.T, path string) {
 		fmt.Fprintf(os.Stderr, "unknown property %q\n", rf.Property)
 		os.Exit(2)
 	}
+	curRunIndex, curBaseSeed = rf.RunIndex, rf.Seed
 	what := "replay " + path
 	stop := watchdog(600*time.Second, &what)
 	out := execute(p, simrt.ReplayTape(rf.RunSeed, rf.Streams), rf.Tier, rf.Variant)
